@@ -360,7 +360,8 @@ impl DateFilter for ds::MonthdayRange {
                     }
                 };
 
-                Some(next_change_from_bounds(date, [start], [end]))
+                // `end` is the first day after the range, bounds are inclusive
+                Some(next_change_from_bounds(date, [start], end.pred_opt()))
             }
             ds::MonthdayRange::Date {
                 start:
